@@ -19,6 +19,9 @@ pub fn run_c10(cfg: &RunCfg, trace: bool) -> RunOut {
     run_loop(cfg, trace, true, &mut |cx, i, op, before, want, got, snaps| {
         let shape = cx.shape.clone();
         if i > 0 {
+            if matches!(want, Want::Unspec) {
+                return true;
+            }
             if judge(want, got).is_some() {
                 // contract deviation: C09's business; model and implementation have diverged
                 cx.out.count("c10.run_ended_by_contract_deviation");
